@@ -75,7 +75,7 @@ def run(ctx):
             if f["stall"] != "0":
                 ctx.violation("sys_loop:monitor:stall:%s%s" % (w[1], ":spec" if w[0] == "SPEC" else ""),
                               "the event loop stalled on %s: work was owed but no xcm fd became readable (%s)" % (w[1], o), rep)
-            elif f["failed"] != "-" and f["complete"] == "1" and f["bad"] == "0" and f["failed"].endswith("receive") and w[1] in ("tls", "btls", "utls"):
+            elif f["failed"] != "-" and f["complete"] == "1" and f["bad"] == "0" and f["failed"].endswith("receive") and w[1] in ("tls", "btls", "utls") and w[3] != "0":
                 # everything was delivered; the peer's close arrived as a non-orderly TLS close (its close_notify was refused by an
                 # injected EAGAIN - xcm_close does not wait): the terminal condition IS reported, which is what C04 asks for
                 ctx.count("tls_close_reported_as_error")
@@ -87,7 +87,7 @@ def run(ctx):
             got, want = f["got"].split("/")
             if f["hung"] != "0":
                 ctx.violation("sys_loop:monitor:blocking-call-hung:%s" % w[1], "a blocking call did not return within 40 s although its event happened: %s" % o, rep)
-            elif got == want and f["bad"] == "0" and f["err"].endswith("receive") and w[1] in ("tls", "btls", "utls"):
+            elif got == want and f["bad"] == "0" and f["err"].endswith("receive") and w[1] in ("tls", "btls", "utls") and w[3] != "0":
                 ctx.count("tls_close_reported_as_error")
             elif f["err"] != "-" or got != want or f["bad"] != "0" or f["close_seen"] != "1":
                 ctx.violation("sys_loop:monitor:blocking-incomplete:%s" % w[1], "blocking mode: %s" % o, rep)
